@@ -84,8 +84,8 @@ CLAIMED = {
          'Lean 4 proofs (conjugation of the exponential, induction over chains and over operation histories) + history-replay correspondence + SciPy-expm falsifier',
          'DESIGN.md section 5 C05'),
  'C07': ('Machine-checked theorems (Lean 4): for the limit-respecting Newton loop with an arbitrary pseudo-inverse oracle and any iteration cap, a reported success implies the angular part of the space-frame error twist is within the orientation tolerance and the linear part within the position tolerance; '
-         'if no joint vector meets the tolerances (unreachable goal) success is never reported; the returned vector lies inside the limits (every iteration ends with the clamp); both solvers' write-backs leave the arm coherent (C05). '
-         'Tied by postcondition transfer: the real solver's (theta, success) is re-judged by the compiled model with the arm's stored screws/home/tolerances. Local convergence is sampled, not proved.',
+         'if no joint vector meets the tolerances (unreachable goal) success is never reported; the returned vector lies inside the limits (every iteration ends with the clamp); both solvers\' write-backs leave the arm coherent (C05). '
+         'Tied by postcondition transfer: the real solver\'s (theta, success) is re-judged by the compiled model with the arm\'s stored screws/home/tolerances. Local convergence is sampled, not proved.',
          'Trusted: Lean kernel, Mathlib, harness goal generators and scipy-logm error twist; pinv and random restarts are oracles.',
          'Lean 4 loop-invariant proofs with oracle updates + postcondition-transfer correspondence + on-arm falsifier',
          'DESIGN.md section 5 C07'),
